@@ -6,6 +6,7 @@ same with comments blanked and with comments of every shape spliced between toke
 import itertools
 import json
 import os
+import re
 import vlib
 import gen
 
@@ -99,6 +100,14 @@ def run(ctx):
             toks, defs, stats = gen.project(ctx.rng, n_templates=2, n_functions=1)
             plain = gen.render(toks)
             commented = gen.render(toks, ctx.rng, gen.COMMENT_SHAPES)
+            if k % 4 == 1:
+                # a header comment in front of everything, and (every other time) no version pragma at all: the reports about the version
+                # are findings too (seeded C05 m5: the place of the missing-pragma warning was computed on the text with its comments)
+                if k % 8 == 1 and toks[:1] == ["pragma circom"]:
+                    toks = toks[3:]
+                    plain = gen.render(toks)
+                    commented = gen.render(toks, ctx.rng, gen.COMMENT_SHAPES)
+                commented = "/* licence\n * header é\n */\n// 𝔸 second header\n" + commented
             blanked = blank_comments(commented)
             files = {"plain": plain, "commented": commented, "blanked": blanked}
             for kind, text in files.items():
@@ -115,6 +124,8 @@ def run(ctx):
                     return ("crash", rep["crash"][:80])
                 res = []
                 for r in vlib.reports_of(rep):
+                    # the scratch directory of the variant is taken out of the messages that quote the path of the file
+                    r = dict(r, message=re.sub(r"/var/tmp/verif-c05-[^/]+/p\d+/\w+/", "", r["message"] or ""))
                     src = text.encode("utf-8")
                     under = tuple(" ".join((blank_comments(src[l["start"]:l["end"]].decode("utf-8", "replace")) or "?").split())
                                   for l in r["primary"])
